@@ -99,9 +99,63 @@ def mk_rewrite(facts, ctx, debug_ok):
     return rw
 
 
+def signal_json_names(ctx, rule):
+    """the JSON spelling of each named signal (derived Serialize of NamedSignal) is its SIG-prefixed name (shared with C19)"""
+    facts = ctx.facts
+    ty = "watchexec_signals::serde_support::NamedSignal"
+    signames = {"Hangup": "SIGHUP", "ForceStop": "SIGKILL", "Interrupt": "SIGINT", "Quit": "SIGQUIT", "Terminate": "SIGTERM", "User1": "SIGUSR1", "User2": "SIGUSR2"}
+    cands = facts.trait_methods(ty, "::Serialize", "serialize")
+    adt = facts.find_adt(ty)
+    if len(cands) != 1 or adt is None:
+        ctx.violation(rule, "floor:anchor:serialize:NamedSignal", "derived Serialize for %s not found" % ty)
+        return
+    f = cands[0]
+    ctx.saw_fn(f)
+    emitted = {}
+    for _, t in f.calls():
+        if t.callee.is_("serde::ser::Serializer::serialize_unit_variant") and len(t.args) >= 4:
+            emitted[t.args[2].const_int()] = t.args[3].const_str()
+    ctx.floor(rule, "named signals with a JSON spelling", len(adt["variants"]), 7)
+    for v in adt["variants"]:
+        want = signames.get(v["name"])
+        got = emitted.get(v["idx"])
+        ctx.require(got == want, rule, "json-name:" + v["name"], "Signal::%s is written to JSON as %r, the name its display form and parser use" % (v["name"], want), f.loc(f.line),
+                    fail="Signal::%s is written to JSON as %r but displays / parses as %r" % (v["name"], got, want))
+
+
+def simple_kind_table(ctx, rule, facts=None, sfx=""):
+    """FsEventKind::from(EventKind) - the documented `simple` value - for every filesystem event kind: access / create / modify / remove by the outer kind, other for Any and Other"""
+    facts = facts or ctx.facts
+    conv = ctx.anchor_one(rule, "<FsEventKind as From<EventKind>>::from" + sfx,
+                          [x for x in facts.fns_matching(r"From<.*EventKind> for watchexec_events::serde_formats::FsEventKind>::from$|FsEventKind as core::convert::From<.*EventKind>>::from$")])
+    cm = [m for m in thir.find(thir.root(conv), "match") if m["src"] == "Normal" and "EventKind" in m["sty"]]
+    if len(cm) != 1 or thir.peel(thir.root(conv)) is not cm[0]:
+        ctx.incomplete(rule, "simple-kind-table" + sfx, "FsEventKind::from(EventKind) is no longer a single match over the kind: the `simple` value of each kind cannot be read off", conv.loc(conv.line))
+        return
+    fek = cm[0]["sty"].lstrip("&")
+    n = 0
+    for v in thir.enum_values(facts, fek, depth=4):
+        name = thir.debug_render(v)
+        outer = name.split("(")[0]
+        want = outer if outer in ("Access", "Create", "Modify", "Remove") else "Other"
+        j = thir.first_arm(cm[0], v)
+        got = thir.expr_value(cm[0]["arms"][j]["b"]) if j is not None else None
+        got = got[2] if got and got[0] == "v" else None
+        n += 1
+        ctx.require(got == want, rule, "simple-kind:%s%s" % (name, sfx), "the simple kind of %s is %s" % (name, want.lower()), conv.loc(conv.line),
+                    fail="the JSON `simple` value of %s is %r, documented %r" % (name, (got or "?").lower(), want.lower()))
+    ctx.floor(rule, "kinds with a simple value" + sfx, n, 41)
+
+
 def run(ctx):
     for cfgname, facts in [("default", ctx.facts)] + sorted(ctx.alt_facts.items()):
         run_one(ctx, facts, cfgname)
+    # the JSON events file the CLI writes holds one complete document per line (rule owned by C17): what is read back is what was serialised
+    try:
+        from . import c17 as _c17j
+        _c17j.json_lines(ctx, "R16.6")
+    except Skip:
+        pass
 
 
 def run_one(ctx, facts, cfgname):
@@ -124,7 +178,7 @@ def run_one(ctx, facts, cfgname):
     ctx.rule("R16.8", "tolerant readers: the derived deserialisers of the mirror structs (SerdeTag, SerdeEvent) keep serde's default of ignoring fields they do "
                       "not know (their field enum has the `__ignore` case and nothing calls unknown_field), so an object of a known kind with extra or "
                       "unexpected fields still parses - to that kind or to Tag::Unknown - instead of failing the whole event")
-    ctx.rule("R16.7", "stable names: the derived Serialize impls of the tag-kind / disposition / simple-kind / signal-name enums emit the kebab-case "
+    ctx.rule("R16.7", "stable names: the `simple` value of every filesystem event kind is its outer kind (other for Any / Other); the derived Serialize impls of the tag-kind / disposition / simple-kind / signal-name enums emit the kebab-case "
                       "(or documented SIG*) name of each variant, and SerdeTag / SerdeEvent serialise their fields under the field names")
     ctx.rule("R16.6", "event metadata is serialised through a BTreeMap (sorted keys); Tag and Event (de)serialise through their "
                       "Serde* mirror types via From/Into")
@@ -371,6 +425,10 @@ def run_one(ctx, facts, cfgname):
             ctx.require(got == want, "R16.7", "name:%s::%s%s" % (ty.split("::")[-1], v["name"], sfx),
                         "%s::%s is serialised as %r" % (ty.split("::")[-1], v["name"], want), f.loc(f.line),
                         fail="%s::%s is serialised as %r, documented %r: the JSON format changed" % (ty.split("::")[-1], v["name"], got, want))
+    try:
+        simple_kind_table(ctx, "R16.7", facts, sfx)
+    except Skip:
+        pass
     for ty in ("watchexec_events::serde_formats::SerdeTag", "watchexec_events::serde_formats::SerdeEvent"):
         cands = facts.trait_methods(ty, "::Serialize", "serialize")
         adt = facts.find_adt(ty)
